@@ -486,9 +486,27 @@ func runFullStack(e *core.Env) {
 				if !got {
 					e.Fail("full-stack"+tag+"/request-not-delivered", "%s mesh of %d real instances, edges %v: request %s>%s was not handed to the destination", ms.Kind, n, ms.Edges, U.Name, V.Name)
 				}
+				// Wave 15: in a third of the pings the request leaves a moment before one of the
+				// requester's once-a-minute housekeeping ticks and its answer comes back a moment
+				// after it (a round trip of 60..800 ms on honest links): the answer still has to
+				// reach whoever waits for it.
+				lead := time.Duration(0)
+				if tp.Chance(1, 3) && !U.StartedAt.IsZero() {
+					lead = time.Duration(30+tp.Intn(370)) * time.Millisecond
+					toTick := time.Minute - time.Since(U.StartedAt)%time.Minute
+					if toTick > lead {
+						ms.CN.RunFor(tp, toTick-lead, 400000)
+					} else {
+						ms.CN.RunFor(tp, toTick+time.Minute-lead, 400000)
+					}
+				}
 				notify, _, err := U.In.Router().PingPong.Send(V.IP, false, 0)
 				if err != nil {
 					e.Fail("full-stack"+tag+"/request-not-routable", "%s cannot send a ping to %s in a converged mesh: %v", U.Name, V.Name, err)
+				}
+				if lead > 0 {
+					time.Sleep(lead + time.Duration(30+tp.Intn(370))*time.Millisecond) // the records are on their way meanwhile
+					e.Probe("fullstack_ping_in_flight_across_a_housekeeping_tick")
 				}
 				ms.CN.RunFor(tp, 2*time.Second, 20000)
 				select {
